@@ -204,7 +204,9 @@ class Evaluator:
             q2 = self.repo._follow(q)
             return self._global(q2)
         loc = ("a", base, e.attr)
-        if loc in self.env.heap:
+        if loc in self.env.heap and e.attr not in self.repo.property_names:
+            # (a store through a property setter is not a plain field write: a later
+            # read runs the getter, so the stored term is not forwarded)
             return self.env.heap[loc]
         if self.props is not None and base == n("self") and isinstance(e.ctx, ast.Load):
             getter = self.props(e.attr)
